@@ -47,6 +47,8 @@ static inline long *VecLong_at(VecLong *v, unsigned long i)
   if ((long)i != v->cur) { v->cur = (long)i; v->curval = nondet_long(); }
   return &v->curval;
 }
+/* default constructor: empty vector (the ghost index is whatever the harness fixes later: left unconstrained) */
+static inline VecLong VecLong_ctor0(void) { VecLong v; v.size = 0; v.cur = -1; return v; }
 static inline unsigned long VecLong_size(VecLong *v) { return (unsigned long)v->size; }
 static inline void VecLong_resize(VecLong *v, unsigned long n)
 {
@@ -99,6 +101,7 @@ static inline CMat *VecCMat_at(VecCMat *v, unsigned long i)
   }
   return &v->curm;
 }
+static inline VecCMat VecCMat_ctor0(void) { VecCMat v; v.size = 0; v.cur = -1; return v; }
 static inline unsigned long VecCMat_size(VecCMat *v) { return (unsigned long)v->size; }
 static inline void VecCMat_resize(VecCMat *v, unsigned long n)
 {
